@@ -636,3 +636,84 @@ func c04NonEmptyInvariants(ctx *Ctx, r *Report) {
 	r.Count("type constraint literals", n)
 	r.Floor("type constraint literals", 8)
 }
+
+// cfgNilEntries: a configuration field decoded from YAML as a slice of pointers (`inputs: [~]` gives a nil element) is
+// checked for nil elements by the loader before anything ranges over it and dereferences the elements.
+func cfgNilEntries(ctx *Ctx, r *Report) {
+	n := 0
+	for _, p := range ctx.Pkgs {
+		if !strings.HasPrefix(p.PkgPath, modulePath+"/internal/codegen") && !strings.HasPrefix(p.PkgPath, modulePath+"/internal/yaml") {
+			continue
+		}
+		info := p.TypesInfo
+		for _, f := range p.Syntax {
+			ast.Inspect(f, func(m ast.Node) bool {
+				st, ok := m.(*ast.StructType)
+				if !ok {
+					return true
+				}
+				for _, fld := range st.Fields.List {
+					if fld.Tag == nil || !strings.Contains(fld.Tag.Value, "yaml:") || len(fld.Names) == 0 {
+						continue
+					}
+					t := info.TypeOf(fld.Type)
+					sl, ok := t.Underlying().(*types.Slice)
+					if !ok {
+						continue
+					}
+					if _, isPtr := sl.Elem().(*types.Pointer); !isPtr {
+						continue
+					}
+					fieldObj, _ := info.Defs[fld.Names[0]].(*types.Var)
+					n++
+					// a loop over that field that returns an error on a nil element, in a function that also decodes YAML
+					validated := false
+					for _, f2 := range p.Syntax {
+						for _, d := range f2.Decls {
+							fd, ok := d.(*ast.FuncDecl)
+							if !ok || fd.Body == nil {
+								continue
+							}
+							decodes := false
+							ast.Inspect(fd.Body, func(k ast.Node) bool {
+								if c, ok := k.(*ast.CallExpr); ok {
+									if fn := callee(info, c); fn != nil && (fn.Name() == "Decode" || fn.Name() == "Unmarshal") {
+										decodes = true
+									}
+								}
+								return true
+							})
+							if !decodes {
+								continue
+							}
+							ast.Inspect(fd.Body, func(k ast.Node) bool {
+								rs, ok := k.(*ast.RangeStmt)
+								if !ok || fieldOf(info, rs.X) != fieldObj || rs.Value == nil {
+									return true
+								}
+								val, _ := rs.Value.(*ast.Ident)
+								for _, s2 := range rs.Body.List {
+									is, ok := s2.(*ast.IfStmt)
+									if !ok || !endsInExit(is.Body) {
+										continue
+									}
+									if be, ok := ast.Unparen(is.Cond).(*ast.BinaryExpr); ok && be.Op == token.EQL && isNilIdent(info, be.Y) && val != nil && isIdentOf(info, be.X, info.Defs[val]) {
+										if ret, ok := is.Body.List[len(is.Body.List)-1].(*ast.ReturnStmt); ok && len(ret.Results) > 0 && !isNilIdent(info, ret.Results[len(ret.Results)-1]) {
+											validated = true
+										}
+									}
+								}
+								return true
+							})
+						}
+					}
+					r.Check(validated, "cfgschema/nil-entries", fmt.Sprintf("%s field %s", p.PkgPath[len(modulePath)+1:], fld.Names[0].Name), fld.Pos(), "the loader rejects nil elements right after decoding",
+						fmt.Sprintf("%s is a slice of pointers filled by the YAML decoder: a null list entry (`- ~`) decodes to a nil element, and nothing rejects it before the pipeline ranges over the slice and dereferences its elements", fld.Names[0].Name))
+				}
+				return true
+			})
+		}
+	}
+	r.Count("configuration slices of pointers", n)
+	r.Floor("configuration slices of pointers", 2)
+}
